@@ -252,7 +252,7 @@ def run_case(case):
                 else:
                     third = [h[4] for h in hist if h[0] <= done / 3.0]
                     mu_sys = sum(p_['m'] for p_ in spec['system']['planets']) / spec['system']['mstar'] if nsys == 1 else 1e-2
-                    if mE > (5e-2 if integ in ('leapfrog', 'janus', 'eos') else 1e-3) + 5 * mu_sys:
+                    if mE > ({'leapfrog': 0.3, 'janus': 0.3, 'eos': 5e-2}.get(integ, 1e-3)) + 5 * mu_sys:
                         add('conserve:energy-bound:%s' % integ, '%s: max |dE/E| = %.3e' % (desc, mE))
                     elif third and done >= 300 and nsys == 1 and abs(done * spec['dt']) >= 30 * gen.inner_period(spec['system']) * spec.get('tscale', 1.0) and integ not in ('mercurius', 'trace') and mE > 300 * max(third) + 1e-12 and mE > 1e-7:
                         # drifting? fit: compare the last third's max with the first third's
@@ -398,7 +398,7 @@ def case_KP():
 
 
 def case_KL():
-    return 150.0
+    return 400.0
 
 
 def replay(path):
